@@ -382,6 +382,15 @@ class amg {
                     return std::shared_ptr<build_matrix>();
                 }
 
+                if (backend::cols(*P) == 0 || backend::cols(*P) >= backend::rows(*A)) {
+                    // The coarse level would be empty or not smaller than the
+                    // current one (e.g. every aggregate has just as many points
+                    // as there are near null-space vectors). Stop coarsening
+                    // here, the level is handled by the smoother.
+                    AMGCL_TOC("transfer operators");
+                    return std::shared_ptr<build_matrix>();
+                }
+
                 sort_rows(*P);
                 sort_rows(*R);
 
